@@ -122,13 +122,21 @@ def check_software(p, m, rng, out, nseq, label):
         ln = rng.choice([0, 1, 2, 3, rng.randrange(0, 41)])
         words = [rng.choice([0, (1 << m) - 1, rng.getrandbits(m)]) for _ in range(ln)]
         out["evaluations"] += 1
-        got = par.compute(words)
+        # (the words are handed over in any form an "iterable of integers" may take)
+        forms = ["list", "tuple", "iterator", "generator", "map"] + (["bytes", "bytearray"] if m == 8 else [])
+        form = forms[k % len(forms)] if k < len(forms) else rng.choice(forms)
+        arg = {"list": lambda: list(words), "tuple": lambda: tuple(words), "iterator": lambda: iter(list(words)),
+               "generator": lambda: (w_ for w_ in words), "map": lambda: map(int, words),
+               "bytes": lambda: bytes(words), "bytearray": lambda: bytearray(words)}[form]()
+        out["hist"]["compute-argument:" + form] = out["hist"].get("compute-argument:" + form, 0) + 1
+        got = par.compute(arg)
         exp = r.compute(words)
         if ln:
             out["fps"].add(fp([label, m, words[:6], ln]))
         if got != exp:
             out["violations"].append({"mechanism": "software-compute-mismatch",
-                                      "detail": {"params": p, "data_width": m, "words": words, "compute": got, "model": exp, "entry": label}})
+                                      "detail": {"params": p, "data_width": m, "words": words, "compute": got, "model": exp, "entry": label,
+                                                 "words_given_as": form}})
             return False
     return True
 
@@ -149,6 +157,12 @@ def check_hardware(p, m, rng, out, ncycles, label):
     mod.submodules.dut = dut
     cd = ClockDomain("sync")
     mod.domains.sync = cd
+    # the processor object may have been elaborated before (converted, or simulated elsewhere): 0, 1 or 2 times
+    from amaranth.hdl import Fragment
+    prior = rng.choice([0, 0, 1, 1, 2])
+    for _ in range(prior):
+        Fragment.get(dut, None)
+    out["hist"][f"processor-elaborated-before:{prior}"] = out["hist"].get(f"processor-elaborated-before:{prior}", 0) + 1
     sim = Simulator(mod)
     n = p["crc_width"]
     trailer_ok = (n % m == 0)
@@ -249,7 +263,7 @@ def check_hardware(p, m, rng, out, ncycles, label):
     sim.add_testbench(tb)
     sim.run()
     for mech, d in viol:
-        d.update(params=p, data_width=m, entry=label)
+        d.update(params=p, data_width=m, entry=label, processor_elaborated_before=prior)
         out["violations"].append({"mechanism": mech + ("" if p["reflect_input"] == p["reflect_output"] else ":cross-endian"), "detail": d})
     return not viol
 
